@@ -26,16 +26,16 @@ def str (s : String) : Str := s.toList.map Char.toNat
 
 /-! ## Go string functions -/
 
-/-- the runes of a Go string with the bytes each one was decoded from -/
-def runesAux (b : Array Nat) : Nat → Nat → List (Nat × Str)
+/-- the runes of a Go string with the bytes each one was decoded from
+    (utf8.DecodeRuneInString looks at no more than four bytes) -/
+def runesAux : Nat → Str → List (Nat × Str)
   | 0, _ => []
-  | fuel + 1, i =>
-    if i < b.size then
-      let rw := Lex.decodeRune b i
-      (rw.1, (b.extract i (i + rw.2)).toList) :: runesAux b fuel (i + rw.2)
-    else []
+  | _, [] => []
+  | fuel + 1, c :: rest =>
+    let rw := Lex.decodeRune ((c :: rest).take 4).toArray 0
+    (rw.1, (c :: rest).take rw.2) :: runesAux fuel ((c :: rest).drop rw.2)
 
-def runes (s : Str) : List (Nat × Str) := runesAux s.toArray s.length 0
+def runes (s : Str) : List (Nat × Str) := runesAux s.length s
 
 def fieldsGo : List (Nat × Str) → Str → List Str
   | [], cur => if cur.isEmpty then [] else [cur]
@@ -245,10 +245,9 @@ def removeBreakPoint (source : Str) (line : Int) : M Unit :=
       modS fun s => { s with breakPoints := s.breakPoints.filter fun p => p.1 != bpKey source line }
     else
       -- `strings.Split(k, ":")[0]` for every key
-      let ks ← s.breakPoints.mapM fun p => do
-        let k0 ← idx (split 58 p.1) 0 "RemoveBreakPoint: strings.Split(k, \":\")[0]"
-        pure (p, k0)
-      modS fun s => { s with breakPoints := (ks.filter fun q => q.2 != source).map (·.1) }
+      deref (s.breakPoints.all fun p => decide (0 < (split 58 p.1).length))
+        "RemoveBreakPoint: strings.Split(k, \":\")[0]"
+      modS fun s => { s with breakPoints := s.breakPoints.filter fun p => (split 58 p.1).head? != some source }
 
 def breakOnStart (flag : Bool) : M Unit :=
   locked (modS fun s => { s with breakOnStart := flag })
